@@ -222,7 +222,9 @@ def main(tier, replay):
     for out in common.pmap(fuzz_work, [(dbin, list(range(base + i, base + min(i + 25, n)))) for i in range(0, n, 25)]):
         for rec in out:
             chk.count(); steps += rec['steps']
-            if not rec['bad'] and rec['steps'] > 3: chk.nontrivial('api:' + rec['id'])
+            if not rec['bad'] and rec['steps'] > 3:
+                chk.nontrivial('api:' + rec['id'])
+                if len(chk.samples) < 2: chk.sample({'workload': 'API script', 'script': rec['id'], 'step_results_checked': rec['steps']})
             for key, det in rec['bad']: chk.report(key, det, '%s %s' % (rec['id'], key))
     chk.add('api_scripts', n); chk.add('api_step_results_checked', steps)
     # (2) cross-thread cancel / receive
@@ -231,7 +233,9 @@ def main(tier, replay):
     sigs = set()
     for rec in common.pmap(cancel_work, jobs, workers=min(10, common.NPROC)):
         chk.count(); sigs |= rec.get('sigs', set())
-        if not rec['bad']: chk.nontrivial('cross:%s' % rec['job'])
+        if not rec['bad']:
+            chk.nontrivial('cross:%s' % rec['job'])
+            if len(chk.samples) < 3: chk.sample({'workload': 'cross-thread ' + str(rec['job'][2]), 'flavour': rec['job'][0], 'datamodel': rec['job'][3], 'engine': rec['job'][4]})
         for key, det in rec['bad']: chk.report(key, {'job': rec['job'], 'xml': rec['xml'], 'detail': det}, 'cross-thread %s: %s' % (rec['job'], key))
     chk.add('cross_thread_runs', n2)
     # (3) churn + forced lost-wake-up window
@@ -241,7 +245,9 @@ def main(tier, replay):
     for rec in common.pmap(churn_work, cj, workers=min(10, common.NPROC)):
         chk.count(); cyc += rec['cycles']; sigs |= rec.get('sigs', set())
         if rec['job'][3] and rec.get('reached'): reached += 1
-        if not rec['bad']: chk.nontrivial('churn:%s' % rec['job'][:3])
+        if not rec['bad']:
+            chk.nontrivial('churn:%s' % rec['job'][:3])
+            if len(chk.samples) < 4: chk.sample({'workload': 'create/destroy churn', 'flavour': rec['job'][0], 'cycles': rec['cycles'], 'forced_window': bool(rec['job'][3])})
         for key, det in rec['bad']: chk.report(key, {'job': rec['job'], 'detail': det}, 'churn %s: %s' % (rec['job'][:3], key))
     chk.add('create_destroy_cycles', cyc); chk.add('forced_preloop_window_runs_reached', reached)
     if reached == 0: chk.inconc('the forced deq.run.preloop window was never reached')
@@ -250,7 +256,9 @@ def main(tier, replay):
     for out in common.pmap(reset_work, [(dbin, list(range(base + 500000 + i, base + 500000 + min(i + 20, n4)))) for i in range(0, n4, 20)]):
         for rec in out:
             chk.count(); cmp_ += rec.get('compared', 0)
-            if not rec['bad']: chk.nontrivial('reset:%s' % rec['id'])
+            if not rec['bad']:
+                chk.nontrivial('reset:%s' % rec['id'])
+                if len(chk.samples) < 5: chk.sample({'workload': 'reset equivalence', 'case': rec['id'], 'records_compared': rec.get('compared', 0)})
             for key, det in rec['bad']: chk.report(key, det, 'reset %s: %s' % (rec['id'], key))
     chk.add('reset_records_compared', cmp_); chk.add('distinct_interleaving_signatures', len(sigs))
     shutil.rmtree(outdir, ignore_errors=True)
